@@ -94,6 +94,24 @@ def make_script_factory(seq, timeout):
     return factory
 
 
+CALL_STYLE = ["kw"]
+
+
+def call_send_udp(loop, timeout, retries):
+    """The ways a caller may spell the call (the documented TSender order is
+    endpoint, packet, timeout, loop, retries)."""
+    st = CALL_STYLE[0]
+    if st == "kw":
+        return send_udp(EP, REQUEST, timeout=timeout, loop=loop, retries=retries)
+    if st == "positional":
+        return send_udp(EP, REQUEST, timeout, loop, retries)
+    if st == "positional-loop-none":
+        return send_udp(EP, REQUEST, timeout, None, retries)
+    if st == "kw-no-loop":
+        return send_udp(endpoint=EP, packet=REQUEST, retries=retries, timeout=timeout)
+    raise ValueError(st)
+
+
 def run_virtual(seq, retries, timeout, cancel_at=None):
     """Returns (outcome, value, t_done, loop) - loop is closed."""
     loop = VLoop(make_script_factory(seq, timeout))
@@ -103,7 +121,7 @@ def run_virtual(seq, retries, timeout, cancel_at=None):
     result = {}
 
     async def main():
-        task = asyncio.ensure_future(send_udp(EP, REQUEST, timeout=timeout, loop=loop, retries=retries))
+        task = asyncio.ensure_future(call_send_udp(loop, timeout, retries))
         if cancel_at is not None:
             loop.call_later(cancel_at, task.cancel)
         try:
@@ -273,6 +291,22 @@ def virtual_part(R):
                 R.mon["virtual_sequences_run"] += 1
                 R.mon["hygiene_events"] += len(hygiene)
                 judge_virtual(R, case, seq, retries, timeout, res, t0, log, transports)
+    # other spellings of the call
+    for style in ("positional", "positional-loop-none", "kw-no-loop"):
+        for retries, seq in ((1, ("reply",)), (2, ("none", "reply")), (3, ("none", "none", "none")), (2, ("icmp", "reply")), (3, ("late", "two", "none"))):
+            k += 1
+            if not R.mine(k):
+                continue
+            case = {"part": "virtual", "seq": list(seq), "retries": retries, "timeout": 1, "style": style}
+            CALL_STYLE[0] = style
+            try:
+                res, t0, log, transports, hygiene = run_virtual(seq, retries, 1)
+            finally:
+                CALL_STYLE[0] = "kw"
+            R.case(("c13a-style", style, seq), True)
+            R.mon["virtual_sequences_run"] += 1
+            R.mon["call_styles_run"] += 1
+            judge_virtual(R, case, seq, retries, 1, res, t0, log, transports)
     # extreme timeouts: 0 (every attempt gives up at once), tiny, an hour, days
     for timeout in (0, 0.001, 3600, 10**6 + 0.5):
         for retries in (1, 2, 3):
@@ -517,6 +551,7 @@ def replay(R, v):
     else:
         seq = tuple(c["seq"])
         REPLY_SIZE[0] = c.get("reply_size")
+        CALL_STYLE[0] = c.get("style", "kw")
         try:
             res, t0, log, transports, hygiene = run_virtual(seq, c["retries"], c["timeout"], cancel_at=c.get("cancel_at"))
         finally:
